@@ -12,6 +12,12 @@ L5 (parse side): `fromCst` for the container fragment — a transliteration, bug
   * `expressions/parenthesis.py` `Parenthesis.from_cst`
   * `expressions/function/call.py` `FunctionCall.from_cst` (with `collect_comments_between_with_gap`,
                                  `_collect_comment_trivia` of `trivia.py`)
+  * `expressions/with_statement.py` `WithStatement.from_cst`, `expressions/assertion.py` `Assertion.from_cst`
+  * `expressions/select.py`      `Select.from_cst`
+  * `expressions/unary.py`       `UnaryExpression.from_cst`
+  * `expressions/binary.py`      `BinaryExpression.from_cst` (without comments around the operator)
+  * `expressions/function/definition.py` `FunctionDefinition.from_cst` (identifier argument, `_collect_colon_trivia`)
+                                 (with `split_inline_comments`, `append_gap_trivia`)
 
 `Expr` has one constructor per Python class with the fields the fragment uses (`Binding` is an
 expression with `before`/`after` exactly as in Python). Everything the Python reads from node
@@ -50,6 +56,27 @@ inductive Expr where
       `AttributeSet(recursive=True)`, and for those `rebuild` writes no extra `rec`. `argument_gap` is
       a `Text`: `from_cst` always sets it (the `None` branch of `rebuild` is for calls built by hand). -/
   | app (name arg : Expr) (argGap : Text) (fnAfter : List Comment) (before after : List Trivia)
+  /-- `WithStatement(environment, body, after_with_comments, after_with_gap, after_semicolon_comments)` -/
+  | wth (env body : Expr) (awc : List Trivia) (awGap : Text) (asc : List Comment) (before after : List Trivia)
+  /-- `Assertion(expression, body, after_assert_comments, before_semicolon_comments)`. `between` is not
+      a field: `rebuild` renders the body as a copy with `before = between + body.before`, and nothing
+      else reads it; the model writes that into the body where `from_cst` computes it (`asrtFromCst`). -/
+  | asrt (cond body : Expr) (aac bsc : List Trivia) (before after : List Trivia)
+  /-- `Select(expression, attribute, default=None, attr_gap, attr_before)`; `attribute` is kept as its
+      `.`-separated segments (`attrText attrs` is the Python string) -/
+  | sel (expr : Expr) (attrs : List Text) (attrGap : Text) (attrBefore : List Trivia) (before after : List Trivia)
+  /-- `Select(expression, attribute, default, attr_gap, attr_before, default_gap, default_before)` -/
+  | selOr (expr : Expr) (attrs : List Text) (attrGap : Text) (attrBefore : List Trivia) (dflt : Expr)
+      (dfltGap : Text) (dfltBefore : List Trivia) (before after : List Trivia)
+  /-- `FunctionDefinition(argument_set=Identifier(name), before_colon_comments, before_colon_gap,
+      breaks_after_semicolon, output)` — `argument_set_is_multiline = False`, no named attribute set, no
+      comment after the colon -/
+  | lam (name : Text) (bcc : List Trivia) (bcGap : Text) (breaks : Nat) (body : Expr) (before after : List Trivia)
+  /-- `UnaryExpression(operator, expression, operand_gap, between)` -/
+  | un (op : Text) (expr : Expr) (gap : Text) (between : List Trivia) (before after : List Trivia)
+  /-- `BinaryExpression(operator=Operator(name), left, right, operator_gap_lines, right_gap_lines)`; the
+      operator carries no trivia (no comments around it in the fragment) -/
+  | bin (op : Text) (left right : Expr) (opGapLines rightGapLines : Nat) (before after : List Trivia)
 
 /-- `NixSourceCode(expressions, trailing)` -/
 structure Src where
@@ -57,36 +84,64 @@ structure Src where
   trailing : List Trivia
 
 def Expr.before : Expr → List Trivia
+  | .bin _ _ _ _ _ b _ => b
+  | .un _ _ _ _ b _ => b
+  | .lam _ _ _ _ _ b _ => b
   | .leaf _ _ b _ => b
   | .list _ _ _ b _ => b
   | .set _ _ _ _ b _ => b
   | .binding _ _ _ b _ => b
   | .paren _ _ _ _ _ b _ => b
   | .app _ _ _ _ b _ => b
+  | .wth _ _ _ _ _ b _ => b
+  | .asrt _ _ _ _ b _ => b
+  | .sel _ _ _ _ b _ => b
+  | .selOr _ _ _ _ _ _ _ b _ => b
 
 def Expr.after : Expr → List Trivia
+  | .bin _ _ _ _ _ _ a => a
+  | .un _ _ _ _ _ a => a
+  | .lam _ _ _ _ _ _ a => a
   | .leaf _ _ _ a => a
   | .list _ _ _ _ a => a
   | .set _ _ _ _ _ a => a
   | .binding _ _ _ _ a => a
   | .paren _ _ _ _ _ _ a => a
   | .app _ _ _ _ _ a => a
+  | .wth _ _ _ _ _ _ a => a
+  | .asrt _ _ _ _ _ a => a
+  | .sel _ _ _ _ _ a => a
+  | .selOr _ _ _ _ _ _ _ _ a => a
 
 def Expr.setBefore : Expr → List Trivia → Expr
+  | .bin o l r x y _ a, b => .bin o l r x y b a
+  | .un o e g bt _ a, b => .un o e g bt b a
+  | .lam n c g k bd _ a, b => .lam n c g k bd b a
   | .leaf k t _ a, b => .leaf k t b a
   | .list v m i _ a, b => .list v m i b a
   | .set v m r i _ a, b => .set v m r i b a
   | .binding n v g _ a, b => .binding n v g b a
   | .paren v lg tg lb tb _ a, b => .paren v lg tg lb tb b a
   | .app n x g fa _ a, b => .app n x g fa b a
+  | .wth e bd c g s _ a, b => .wth e bd c g s b a
+  | .asrt c bd x y _ a, b => .asrt c bd x y b a
+  | .sel e ats g ab _ a, b => .sel e ats g ab b a
+  | .selOr e ats g ab d dg db _ a, b => .selOr e ats g ab d dg db b a
 
 def Expr.setAfter : Expr → List Trivia → Expr
+  | .bin o l r x y b _, a => .bin o l r x y b a
+  | .un o e g bt b _, a => .un o e g bt b a
+  | .lam n c g k bd b _, a => .lam n c g k bd b a
   | .leaf k t b _, a => .leaf k t b a
   | .list v m i b _, a => .list v m i b a
   | .set v m r i b _, a => .set v m r i b a
   | .binding n v g b _, a => .binding n v g b a
   | .paren v lg tg lb tb b _, a => .paren v lg tg lb tb b a
   | .app n x g fa b _, a => .app n x g fa b a
+  | .wth e bd c g s b _, a => .wth e bd c g s b a
+  | .asrt c bd x y b _, a => .asrt c bd x y b a
+  | .sel e ats g ab b _, a => .sel e ats g ab b a
+  | .selOr e ats g ab d dg db b _, a => .selOr e ats g ab d dg db b a
 
 /-- `expr.after.extend(ts)` -/
 def Expr.addAfter (e : Expr) (ts : List Trivia) : Expr := e.setAfter (e.after ++ ts)
@@ -259,6 +314,68 @@ def appFromCst (fe ae : Expr) (cs : GC) (g : Text) : Expr :=
   let bf := if (Layout.fromGap argGap).onNewline then trimLeadingLayoutTrivia bf else bf
   .app fe (ae.setBefore bf) argGap (sp.inl.map fun t => mkComment t true) [] []
 
+/-- `_collect_comment_trivia(parent, selected, start=…, end=…, allow_inline=True, include_linebreak=True,
+    inline_requires_gap=False, include_empty_line=True)`: each comment with the source text between the
+    previous selected node (or `start`) and it; a comment that starts on the row the previous node ends
+    on is `inline`; `tail` is the text between the last comment and `end` -/
+def collectGo (acc : List Trivia) : GC → List Trivia
+  | [] => acc
+  | p :: rest => collectGo (appendGapTriviaOff acc p.1 ++ [.comment (mkComment p.2 (!containsNL p.1))]) rest
+
+def collectTrivia (cs : GC) (tail : Text) : List Trivia :=
+  let body := collectGo [] cs
+  if !cs.isEmpty && gapHasEmptyLineOffsets tail then body ++ [.emptyLine] else body
+
+/-- the comments between the head expression and the body of `with … ; …`, both sides of `;`, as
+    `_select_comment_nodes_between(comments, environment_node, body_node)` returns them, each with the
+    source text in front of it (the text of the first comment after `;` contains the `;`), and the
+    text after the last of them -/
+def semiSeq (c2 : GC) (g2 : Text) (c3 : GC) (g3 : Text) : GC × Text :=
+  match c3 with
+  | [] => (c2, g2 ++ ';' :: g3)
+  | p :: r => (c2 ++ (g2 ++ ';' :: p.1, p.2) :: r, g3)
+
+/-- `split_inline_comments(items)`: (remaining, inline comments) -/
+def splitInline : List Trivia → List Trivia × List Comment
+  | [] => ([], [])
+  | .comment c :: rest =>
+    let r := splitInline rest
+    if c.inline then (r.1, c :: r.2) else (.comment c :: r.1, r.2)
+  | t :: rest => let r := splitInline rest; (t :: r.1, r.2)
+
+/-- `WithStatement.from_cst(node)` given the parsed environment and body -/
+def withFromCst (env body : Expr) (c1 : GC) (g1 : Text) (c2 : GC) (g2 : Text) (c3 : GC) (g3 : Text) : Expr :=
+  let awc := collectTrivia c1 g1                      -- after_with_comments; after_with_gap = g1
+  let sq := semiSeq c2 g2 c3 g3
+  let between := collectTrivia sq.1 sq.2              -- trailing_gap = sq.2
+  let between := if between.isEmpty then appendGapTrivia [] sq.2 else between
+  let sp := splitInline between
+  let body := if sp.1.isEmpty then body else body.setBefore (sp.1 ++ body.before)
+  .wth env body awc g1 sp.2 [] []
+
+/-- `Assertion.from_cst(node)` given the parsed condition and body. DEVIATION (kept explicit):
+    `between` is written into `body.before` here (see `Expr.asrt`). -/
+def asrtFromCst (cond body : Expr) (c1 : GC) (g1 : Text) (c2 : GC) (g2 : Text) (c3 : GC) (g3 : Text) : Expr :=
+  let aac0 := collectTrivia c1 g1
+  let aac :=
+    if aac0.isEmpty then appendGapTrivia [] g1
+    else if containsNL g1 && !gapHasEmptyLine g1 then aac0 ++ [.linebreak] else aac0
+  let bsc := collectTrivia c2 g2
+  let between0 := collectTrivia c3 g3
+  let between1 := if between0.isEmpty && gapHasEmptyLine g3 then [.emptyLine] else between0
+  let sp : List Trivia × List Comment := if between1.isEmpty then (between1, []) else splitInline between1
+  let body := if sp.1.isEmpty then body else body.setBefore (sp.1 ++ body.before)
+  .asrt cond body aac bsc [] (sp.2.map Trivia.comment)
+
+/-- `FunctionDefinition.from_cst(node)` for `name c1 g1 : g2 body`, given the parsed body:
+    `_collect_colon_trivia` counts the line breaks between the colon and the body; the first one is
+    `breaks_after_semicolon`, every further one a blank-line marker in front of the body -/
+def lamFromCst (name : Text) (c1 : GC) (g1 g2 : Text) (body : Expr) : Expr :=
+  let n := g2.count '\n'
+  let trivia : List Trivia := List.replicate (n - 1) .emptyLine
+  let body := if trivia.isEmpty then body else body.setBefore (trivia ++ body.before)
+  .lam name (collectTrivia c1 g1) g1 (if n > 0 then 1 else 0) body [] []
+
 mutual
 /-- `tree_sitter_node_to_expression(node)` on the fragment -/
 def Cst.parse : Cst → Except Err Expr
@@ -296,6 +413,46 @@ def Cst.parse : Cst → Except Err Expr
       match a.parse with
       | .error e => .error e
       | .ok ae => .ok (appFromCst fe ae cs g)
+  | .kw w c1 g1 h c2 g2 c3 g3 b =>
+    match h.parse with
+    | .error e => .error e
+    | .ok he =>
+      match b.parse with
+      | .error e => .error e
+      | .ok be => .ok (if w then withFromCst he be c1 g1 c2 g2 c3 g3 else asrtFromCst he be c1 g1 c2 g2 c3 g3)
+  | .sel e c1 g1 _ attrs =>
+    -- `Select.from_cst`: attr_before, attr_gap = collect_comments_between_with_gap(node, comments,
+    -- expression_node, dot_node, allow_inline=True); no default
+    match e.parse with
+    | .error err => .error err
+    | .ok ee => .ok (.sel ee attrs g1 (collectTrivia c1 g1) [] [])
+  | .selOr e c1 g1 _ attrs c2 g2 _ d =>
+    -- default_before, default_gap = collect_comments_between_with_gap(node, comments, attrpath_node, or_node,
+    -- allow_inline=True)
+    match e.parse with
+    | .error err => .error err
+    | .ok ee =>
+      match d.parse with
+      | .error err => .error err
+      | .ok de => .ok (.selOr ee attrs g1 (collectTrivia c1 g1) de g2 (collectTrivia c2 g2) [] [])
+  | .lam n c1 g1 _ g2 b =>
+    match b.parse with
+    | .error err => .error err
+    | .ok be => .ok (lamFromCst n c1 g1 g2 be)
+  | .un op c g e =>
+    -- `UnaryExpression.from_cst`: between = collect_comment_trivia_between(node, comments, operator_node,
+    -- expression_node, allow_inline=True); operand_gap = the gap in front of the operand
+    match e.parse with
+    | .error err => .error err
+    | .ok ee => .ok (.un op ee g (collectTrivia c g) [] [])
+  | .bin l _ g1 op _ g2 r =>
+    -- `BinaryExpression.from_cst` without comments: the line breaks in the two gaps are counted (`gap_line_info`)
+    match l.parse with
+    | .error err => .error err
+    | .ok le =>
+      match r.parse with
+      | .error err => .error err
+      | .ok re => .ok (.bin op le re (g1.count '\n') (g2.count '\n') [] [])
 /-- the loop of `parse_delimited_sequence` -/
 def Items.parseSeq : Items → Mode → SeqSt → Except Err SeqSt
   | .nil, _, st => .ok st
